@@ -226,6 +226,20 @@ where
     yvals[0] + x * (yvals[1] - yvals[0])
 }
 
+/// Advance the time step of a ratio ramp by one frame without passing the target value.
+/// The number of frames in a chunk is only estimated when the increment is calculated,
+/// so a chunk can hold a few more frames than the ramp was planned for.
+fn ramp_step(t_ratio: f64, t_ratio_increment: f64, t_ratio_end: f64) -> f64 {
+    let next = t_ratio + t_ratio_increment;
+    if (t_ratio_increment < 0.0 && next < t_ratio_end)
+        || (t_ratio_increment > 0.0 && next > t_ratio_end)
+    {
+        t_ratio_end
+    } else {
+        next
+    }
+}
+
 fn validate_ratios(
     resample_ratio: f64,
     max_resample_ratio_relative: f64,
@@ -387,7 +401,7 @@ where
                 let mut points = [T::zero(); 4];
                 let mut nearest = [(0isize, 0isize); 4];
                 while idx < end_idx as f64 {
-                    t_ratio += t_ratio_increment;
+                    t_ratio = ramp_step(t_ratio, t_ratio_increment, t_ratio_end);
                     idx += t_ratio;
                     get_nearest_times_4(idx, oversampling_factor as isize, &mut nearest);
                     let frac = idx * oversampling_factor as f64
@@ -413,7 +427,7 @@ where
                 let mut points = [T::zero(); 3];
                 let mut nearest = [(0isize, 0isize); 3];
                 while idx < end_idx as f64 {
-                    t_ratio += t_ratio_increment;
+                    t_ratio = ramp_step(t_ratio, t_ratio_increment, t_ratio_end);
                     idx += t_ratio;
                     get_nearest_times_3(idx, oversampling_factor as isize, &mut nearest);
                     let frac = idx * oversampling_factor as f64
@@ -439,7 +453,7 @@ where
                 let mut points = [T::zero(); 2];
                 let mut nearest = [(0isize, 0isize); 2];
                 while idx < end_idx as f64 {
-                    t_ratio += t_ratio_increment;
+                    t_ratio = ramp_step(t_ratio, t_ratio_increment, t_ratio_end);
                     idx += t_ratio;
                     get_nearest_times_2(idx, oversampling_factor as isize, &mut nearest);
                     let frac = idx * oversampling_factor as f64
@@ -465,7 +479,7 @@ where
                 let mut point;
                 let mut nearest;
                 while idx < end_idx as f64 {
-                    t_ratio += t_ratio_increment;
+                    t_ratio = ramp_step(t_ratio, t_ratio_increment, t_ratio_end);
                     idx += t_ratio;
                     nearest = get_nearest_time(idx, oversampling_factor as isize);
                     for (chan, active) in self.channel_mask.iter().enumerate() {
